@@ -55,7 +55,8 @@ PINNED = {
     "relabelY": "y_reduction = 1 * (weights > 0)",
     "relabelW": "weights = weights.abs()",
     "useDummy": "len(y_reduction_unique) == 1",
-    "loss": "self.objective_weight * self.objectives_[i] + self.constraint_weight * self.gammas_[grid.columns[i]].max()",
+    "loss": ("(1.0 - self.constraint_weight) * self.objectives_[i] + self.constraint_weight * self.gammas_[grid.columns[i]].max()",
+             "self.objective_weight * self.objectives_[i] + self.constraint_weight * self.gammas_[grid.columns[i]].max()"),
     "gammaAgg": "max",
     "bestIdx": "losses.index(min(losses))",
     "delegation": "self.predictors_[self.best_idx_]",
@@ -68,7 +69,8 @@ def lifted_meta():
         from .. import core, translate
         try:
             _LIFTED["m"] = translate.run(core.REPO).get("GridSrc.lean", {})
-            _LIFTED["v"] = sorted(k for k in PINNED if _LIFTED["m"].get(k) != PINNED[k])
+            _LIFTED["v"] = sorted(k for k in PINNED if not (
+                _LIFTED["m"].get(k) in PINNED[k] if isinstance(PINNED[k], tuple) else _LIFTED["m"].get(k) == PINNED[k]))
         except translate.Untranslatable as e:
             _LIFTED["m"] = {}
             _LIFTED["v"] = ["untranslatable: " + str(e)[:160]]
